@@ -10,7 +10,9 @@ ASSUMPTIONS = ["assigned values are strings (the encoded form); fields that hold
                "a value followed by a newline is outside the domain (F23)"]
 LEVEL_TEXT = ("Theorems in coq/Props/C18.v: (construction, Model/Line.v with the level as parameter) for every text and version "
               "levels 1, 2 and 3 build the same line or fail with the same error, and a text accepted above level 0 is accepted at "
-              "level 0 where every record type with declared fields yields the same line; (assignments, Model/Levels.v) an "
+              "level 0 where every record type with declared fields yields the same line (unconditionally: the safe decoder of "
+              "every datatype accepts only what the unsafe one accepts, by checked inclusion of the regenerated grammars in the "
+              "grammars of Python's int() and float() and separate arguments for GFA2 positions and oriented identifier lists); (assignments, Model/Levels.v) an "
               "invalid assignment is refused at the assignment at level 3, reported by the next write at level 2 and by validate "
               "at every level; a valid one is accepted, written as assigned and validates at every level; over operation sequences "
               "of any length the stored value stays valid at level 3 and only valid texts are written at level >= 2. Tie: "
